@@ -63,3 +63,36 @@ pub open spec fn rseq_entry<B: ScopedBitRead>(r: UperReader<B>, std_opt: u64, fi
         && r.bits.r_pos() == pos0 + (if ext_after is Some { 1int } else { 0int }) + std_opt
         && (ext_after is Some ==> ext_present == bit_at(r.bits.r_bytes(), pos0))
 }
+
+/// presence bits of extension additions are still to be consumed (skip_unknown_extension_additions)
+pub open spec fn rskip_pending(s: Option<Scope>) -> bool {
+    match s {
+        Some(Scope::ExtensibleSequence { name, bit_pos, opt_bit_field, calls_until_ext_bitfield, number_of_ext_fields }) => calls_until_ext_bitfield == 0,
+        Some(Scope::AllBitField(range)) => range.start < range.end,
+        _ => false,
+    }
+}
+/// termination measure of the skip loop
+pub open spec fn rskip_measure(s: Option<Scope>) -> int {
+    match s {
+        Some(Scope::ExtensibleSequence { name, bit_pos, opt_bit_field, calls_until_ext_bitfield, number_of_ext_fields }) => if calls_until_ext_bitfield == 0 { 0x1_0000_0000_0000_0001int } else { 0 },
+        Some(Scope::AllBitField(range)) => if range.start < range.end { range.end - range.start } else { 0 },
+        _ => 0,
+    }
+}
+
+/// what the generated read_seq leaves behind on success, given the scope s0 it started from: a non-extensible SEQUENCE has
+/// consumed its whole preamble; an extensible one has consumed the root part of the preamble -- presence bits of additions the
+/// reader does not know may remain in the bitmap (they are consumed by skip_unknown_extension_additions)
+pub open spec fn rglue_post(s0: Scope, s1: Scope) -> bool {
+    match s0 {
+        Scope::OptBitField(_) => scope_exhausted(s1),
+        _ => match s1 {
+            Scope::OptBitField(range) => range.start == range.end,
+            Scope::ExtensibleSequence { name, bit_pos, opt_bit_field, calls_until_ext_bitfield, number_of_ext_fields } =>
+                number_of_ext_fields <= HALF() && (opt_bit_field matches Some(range) ==> range.start == range.end),
+            Scope::AllBitField(range) => range.start <= range.end,
+            _ => true,
+        },
+    }
+}
